@@ -946,3 +946,350 @@ Proof.
   specialize (H _ (lookup_in _ _ _ Hl)). simpl in H. destruct o; auto.
   destruct p; [discriminate|]. split; auto. discriminate.
 Qed.
+
+(** * error bounds of the binary64 model (lib/PyFloat.v): rounding, product, quotient *)
+From V.proofs Require Import PyFloat_proofs.
+From Coq Require Import QArith Qabs Lqa Qpower.
+Local Open Scope Z_scope.
+
+Definition ulp_exp (m e : Z) : Z := Z.max (Z.log2 (Z.abs m) + e - 52) (-1074).
+
+Lemma c09_round_dy_not_nan m e : round_dy m e <> NaN.
+Proof.
+  unfold round_dy. repeat match goal with |- context [if ?c then _ else _] => destruct c end;
+    try discriminate; unfold inf_of_sign; repeat match goal with |- context [if ?c then _ else _] => destruct c end; discriminate.
+Qed.
+
+(** the three ways round_dy produces a finite result *)
+Lemma round_dy_err m e m' e' : round_dy m e = Fin m' e' ->
+  (m' = m /\ e' = e)
+  \/ (m' = 0 /\ e' = 0 /\ (m = 0 \/ Z.log2 (Z.abs m) + e < -1075))
+  \/ (e' = ulp_exp m e /\ e < e' /\ Z.abs (m' * 2 ^ (e' - e) - m) <= 2 ^ (e' - e - 1)).
+Proof.
+  unfold round_dy, ulp_exp. intros H.
+  destruct (Z.eqb_spec m 0) as [->|Hm].
+  { injection H as <- <-. right. left. auto. }
+  set (a := Z.abs m) in *. set (lm := Z.log2 a) in *.
+  destruct (Z.ltb_spec (lm + e) (-1075)) as [Hu|Hu].
+  { injection H as <- <-. right. left. auto. }
+  set (E := Z.max (lm + e - 52) (-1074)) in *.
+  destruct (Z.leb_spec E e) as [Hfit|Hnf].
+  { destruct (1024 <=? lm + e); [unfold inf_of_sign in H; destruct (m <? 0); discriminate|].
+    injection H as <- <-. left. auto. }
+  set (sh := E - e) in *. assert (Hsh : 0 < sh) by (unfold sh; lia).
+  rewrite Z.shiftr_div_pow2 in H by lia. rewrite !Z.shiftl_mul_pow2 in H by lia. rewrite Z.mul_1_l in H.
+  assert (Hd : 2 ^ sh = 2 * 2 ^ (sh - 1)).
+  { replace sh with (Z.succ (sh - 1)) at 1 by lia. rewrite Z.pow_succ_r by lia. reflexivity. }
+  assert (Hh : 0 < 2 ^ (sh - 1)) by (apply Z.pow_pos_nonneg; lia).
+  remember (2 ^ (sh - 1)) as half eqn:Hhalf. remember (2 ^ sh) as d eqn:Hdd.
+  assert (Hdm := Z.div_mod a d ltac:(lia)). assert (Hmb := Z.mod_pos_bound a d ltac:(lia)).
+  remember (a / d) as q eqn:Hq. remember (a mod d) as rm eqn:Hrm.
+  assert (Hrem : a - q * d = rm) by lia. rewrite Hrem in H.
+  set (q' := if (half <? rm) || (half =? rm) && Z.odd q then q + 1 else q) in *.
+  assert (Hq' : Z.abs (q' * d - a) <= half).
+  { unfold q'. destruct (Z.ltb_spec half rm); cbn [orb]; [lia|].
+    destruct (Z.eqb_spec half rm); cbn [andb]; [destruct (Z.odd q)|]; lia. }
+  destruct (1024 <=? Z.log2 q' + E); [unfold inf_of_sign in H; destruct (m <? 0); discriminate|].
+  injection H as <- <-. right. right. split; auto. split; [lia|].
+  fold sh. rewrite <- Hdd, <- Hhalf. replace (sh - 1) with (sh - 1) by lia.
+  destruct (Z.ltb_spec m 0) as [Hneg|Hpos].
+  - replace (- q' * d - m) with (- (q' * d - a)) by (unfold a; lia). rewrite Z.abs_opp. rewrite Hhalf in Hq'. 
+    replace (E - e - 1) with (sh - 1) by (unfold sh; lia). lia.
+  - replace m with a by (unfold a; lia). replace (E - e - 1) with (sh - 1) by (unfold sh; lia). lia.
+Qed.
+
+Local Open Scope Q_scope.
+
+Definition two : Q := 2 # 1.
+Definition p2 (n : Z) : Q := Qpower two n.
+Definition Qv (x : pyfloat) : Q := match x with Fin m e => inject_Z m * p2 e | _ => 0 end.
+
+Lemma two_nz : ~ two == 0. Proof. unfold two. intros H. discriminate H. Qed.
+Lemma p2_plus a b : p2 (a + b) == p2 a * p2 b.
+Proof. unfold p2. apply Qpower_plus. apply two_nz. Qed.
+Lemma p2_0 : p2 0 == 1. Proof. reflexivity. Qed.
+Lemma p2_pos n : 0 < p2 n.
+Proof. unfold p2. apply Qpower_0_lt. unfold two. reflexivity. Qed.
+Lemma p2_Z n : (0 <= n)%Z -> inject_Z (2 ^ n) == p2 n.
+Proof. intros H. unfold p2, two. rewrite Zpower_Qpower by auto. reflexivity. Qed.
+Lemma p2_succ n : p2 (n + 1) == 2 * p2 n.
+Proof. rewrite p2_plus. change (p2 1) with two. unfold two. lra. Qed.
+Lemma p2_mono a b : (a <= b)%Z -> p2 a <= p2 b.
+Proof. intros H. unfold p2. apply Qpower_le_compat_l; auto. unfold two. discriminate. Qed.
+
+Lemma Qabs_inject z : Qabs (inject_Z z) == inject_Z (Z.abs z).
+Proof. unfold Qabs, inject_Z. simpl. reflexivity. Qed.
+
+Lemma round_dy_errQ m e m' e' : round_dy m e = Fin m' e' ->
+  Qabs (Qv (Fin m' e') - inject_Z m * p2 e) <= p2 (ulp_exp m e - 1).
+Proof.
+  intros H. destruct (round_dy_err _ _ _ _ H) as [[-> ->]|[[-> [-> Hz]]|[He [Hlt Hb]]]]; cbn [Qv].
+  - setoid_replace (inject_Z m * p2 e - inject_Z m * p2 e) with 0 by ring. simpl. apply Qlt_le_weak, p2_pos.
+  - setoid_replace (inject_Z 0 * p2 0 - inject_Z m * p2 e) with (- (inject_Z m * p2 e)) by (change (inject_Z 0) with 0; ring).
+    rewrite Qabs_opp, Qabs_Qmult, Qabs_inject. rewrite (Qabs_pos (p2 e)) by (apply Qlt_le_weak, p2_pos).
+    destruct Hz as [->|Hu].
+    + simpl. setoid_replace (inject_Z 0 * p2 e) with 0 by (change (inject_Z 0) with 0; ring). apply Qlt_le_weak, p2_pos.
+    + destruct (Z.eq_dec m 0) as [->|Hm].
+      { simpl. setoid_replace (inject_Z 0 * p2 e) with 0 by (change (inject_Z 0) with 0; ring). apply Qlt_le_weak, p2_pos. }
+      assert (Ha : (Z.abs m < 2 ^ (Z.log2 (Z.abs m) + 1))%Z).
+      { pose proof (Z.log2_spec (Z.abs m) ltac:(lia)). replace (Z.log2 (Z.abs m) + 1)%Z with (Z.succ (Z.log2 (Z.abs m))) by lia. lia. }
+      assert (Hl0 : (0 <= Z.log2 (Z.abs m))%Z) by apply Z.log2_nonneg.
+      assert (Hq : inject_Z (Z.abs m) <= p2 (Z.log2 (Z.abs m) + 1)).
+      { rewrite <- p2_Z by lia. rewrite <- Zle_Qle. lia. }
+      assert (Hmul : inject_Z (Z.abs m) * p2 e <= p2 (Z.log2 (Z.abs m) + 1) * p2 e).
+      { pose proof (p2_pos e). nra. }
+      rewrite <- p2_plus in Hmul. eapply Qle_trans; [apply Hmul|]. apply p2_mono. unfold ulp_exp. lia.
+  - rewrite He in *. set (E := ulp_exp m e) in *.
+    assert (Hs : (0 <= E - e)%Z) by lia.
+    setoid_replace (inject_Z m' * p2 E - inject_Z m * p2 e) with (p2 e * inject_Z (m' * 2 ^ (E - e) - m)).
+    + rewrite Qabs_Qmult, Qabs_inject, (Qabs_pos (p2 e)) by (apply Qlt_le_weak, p2_pos).
+      assert (Hb' : inject_Z (Z.abs (m' * 2 ^ (E - e) - m)) <= p2 (E - e - 1)).
+      { rewrite <- p2_Z by lia. rewrite <- Zle_Qle. auto. }
+      replace (E - 1)%Z with (e + (E - e - 1))%Z by lia. rewrite p2_plus.
+      pose proof (p2_pos e). nra.
+    + assert (HE : p2 E == p2 e * p2 (E - e)) by (rewrite <- p2_plus; replace (e + (E - e))%Z with E by lia; reflexivity).
+      rewrite HE. remember (E - e)%Z as sh. unfold Z.sub at 1.
+      rewrite inject_Z_plus, inject_Z_mult, inject_Z_opp, p2_Z by lia. ring.
+Qed.
+
+Lemma bound_nonneg x : 0 <= p2 (-53) * Qabs x + p2 (-1075).
+Proof. pose proof (p2_pos (-53)). pose proof (p2_pos (-1075)). pose proof (Qabs_nonneg x). nra. Qed.
+
+(** relative form: half an ulp is at most 2^-53 of the value, or 2^-1075 in the subnormal range *)
+Lemma round_dy_rel m e m' e' : round_dy m e = Fin m' e' ->
+  Qabs (Qv (Fin m' e') - inject_Z m * p2 e) <= p2 (-53) * Qabs (inject_Z m * p2 e) + p2 (-1075).
+Proof.
+  intros H. destruct (Z.eq_dec m 0) as [->|Hm].
+  - unfold round_dy in H. simpl in H. injection H as <- <-. cbn [Qv].
+    setoid_replace (inject_Z 0 * p2 0 - inject_Z 0 * p2 e) with 0 by (change (inject_Z 0) with 0; ring).
+    apply (Qle_trans _ 0); [apply Qle_refl|].
+    pose proof (p2_pos (-1075)). pose proof (p2_pos (-53)).
+    match goal with |- _ <= _ * ?X + _ => assert (0 <= X) by (try apply Qabs_nonneg; apply Qle_refl) end. nra.
+  - eapply Qle_trans; [apply round_dy_errQ; eauto|].
+    rewrite Qabs_Qmult, Qabs_inject, (Qabs_pos (p2 e)) by (apply Qlt_le_weak, p2_pos).
+    set (lm := Z.log2 (Z.abs m)).
+    assert (Hlm : (2 ^ lm <= Z.abs m)%Z) by (apply Z.log2_spec; lia).
+    assert (Hl0 : (0 <= lm)%Z) by apply Z.log2_nonneg.
+    assert (Hq : p2 lm <= inject_Z (Z.abs m)) by (rewrite <- p2_Z by lia; rewrite <- Zle_Qle; auto).
+    unfold ulp_exp. fold lm. destruct (Z.max_spec (lm + e - 52) (-1074)) as [[_ ->]|[_ ->]].
+    + replace (-1074 - 1)%Z with (-1075)%Z by lia.
+      pose proof (p2_pos (-53)). pose proof (p2_pos e). pose proof (p2_pos (-1075)).
+      assert (0 <= inject_Z (Z.abs m)) by (change 0 with (inject_Z 0); rewrite <- Zle_Qle; lia).
+      assert (0 <= inject_Z (Z.abs m) * p2 e) by (apply Qmult_le_0_compat; lra).
+      assert (0 <= p2 (-53) * (inject_Z (Z.abs m) * p2 e)) by (apply Qmult_le_0_compat; lra). lra.
+    + replace (lm + e - 52 - 1)%Z with (-53 + (lm + e))%Z by lia. rewrite !p2_plus.
+      pose proof (p2_pos (-53)). pose proof (p2_pos e). pose proof (p2_pos (-1075)). pose proof (p2_pos lm).
+      assert (p2 lm * p2 e <= inject_Z (Z.abs m) * p2 e) by (apply Qmult_le_compat_r; lra).
+      assert (p2 (-53) * (p2 lm * p2 e) <= p2 (-53) * (inject_Z (Z.abs m) * p2 e)) by (rewrite !(Qmult_comm (p2 (-53))); apply Qmult_le_compat_r; lra).
+      lra.
+Qed.
+
+(** round_dy gives a finite result well below the overflow threshold *)
+Lemma round_dy_finite m e : (Z.log2 (Z.abs m) + e < 1000)%Z -> exists m' e', round_dy m e = Fin m' e'.
+Proof.
+  intros Hs. unfold round_dy.
+  destruct (Z.eqb_spec m 0); [eauto|].
+  set (a := Z.abs m) in *. set (lm := Z.log2 a) in *.
+  destruct (Z.ltb_spec (lm + e) (-1075)); [eauto|].
+  set (E := Z.max (lm + e - 52) (-1074)).
+  destruct (Z.leb_spec E e).
+  { destruct (Z.leb_spec 1024 (lm + e)); [lia|eauto]. }
+  set (sh := (E - e)%Z). assert (Hsh : (0 < sh)%Z) by (unfold sh; lia).
+  rewrite Z.shiftr_div_pow2 by lia. rewrite !Z.shiftl_mul_pow2 by lia.
+  set (q := (a / 2 ^ sh)%Z).
+  match goal with |- context [if ?c then (q + 1)%Z else q] => set (q' := if c then (q + 1)%Z else q) end.
+  assert (Hq : (0 <= q <= 2 ^ 53 - 1)%Z).
+  { unfold q. split; [apply Z.div_pos; [unfold a; lia|apply Z.pow_pos_nonneg; lia]|].
+    assert (Ha : (a < 2 ^ (lm + 1))%Z).
+    { pose proof (Z.log2_spec a ltac:(unfold a; lia)). replace (lm + 1)%Z with (Z.succ lm) by lia. unfold lm. lia. }
+    assert (a / 2 ^ sh < 2 ^ 53)%Z; [|lia].
+    apply Z.div_lt_upper_bound; [apply Z.pow_pos_nonneg; lia|].
+    rewrite <- Z.pow_add_r by lia. eapply Z.lt_le_trans; [apply Ha|]. apply Z.pow_le_mono_r; [lia|].
+    unfold sh, E. pose proof (Z.log2_nonneg a). fold lm in H1. lia. }
+  assert (Hq' : (0 <= q' <= 2 ^ 53)%Z) by (unfold q'; match goal with |- context [if ?c then _ else _] => destruct c end; lia).
+  assert (Hl : (Z.log2 q' <= 53)%Z).
+  { replace 53%Z with (Z.log2 (2 ^ 53)) by (apply Z.log2_pow2; lia). apply Z.log2_le_mono. lia. }
+  destruct (Z.leb_spec 1024 (Z.log2 q' + E)); [unfold E in *; lia|eauto].
+Qed.
+
+Lemma Qv_mul m1 e1 m2 e2 : inject_Z (m1 * m2) * p2 (e1 + e2) == Qv (Fin m1 e1) * Qv (Fin m2 e2).
+Proof. cbn [Qv]. rewrite inject_Z_mult, p2_plus. ring. Qed.
+
+(** float multiplication: finite result -> relative error 2^-53 (or 2^-1075 absolute) *)
+Lemma f_mul_rel m1 e1 m2 e2 m' e' : f_mul (Fin m1 e1) (Fin m2 e2) = Fin m' e' ->
+  Qabs (Qv (Fin m' e') - Qv (Fin m1 e1) * Qv (Fin m2 e2)) <= p2 (-53) * Qabs (Qv (Fin m1 e1) * Qv (Fin m2 e2)) + p2 (-1075).
+Proof. cbn [f_mul]. intros H. rewrite <- Qv_mul. apply round_dy_rel; auto. Qed.
+
+(** correctly prepared quotient: fl_div_e n d k is within 2^-52 (relative) of n/d * 2^k *)
+Lemma p2_consts : p2 (-55) + p2 (-53) * (1 + p2 (-55)) <= p2 (-52).
+Proof. vm_compute. discriminate. Qed.
+
+Lemma Qabs_triangle3 a b c : Qabs (a - c) <= Qabs (a - b) + Qabs (b - c).
+Proof. setoid_replace (a - c) with ((a - b) + (b - c)) by ring. apply Qabs_triangle. Qed.
+
+Lemma fl_div_rel n d k m' e' :
+  (0 < d)%Z -> n <> 0%Z -> (0 <= Z.log2 d - Z.log2 (Z.abs n) + 55)%Z ->
+  fl_div_e n d k = Fin m' e' ->
+  Qabs (Qv (Fin m' e') - inject_Z n / inject_Z d * p2 k)
+    <= p2 (-52) * Qabs (inject_Z n / inject_Z d * p2 k) + p2 (-1075).
+Proof.
+  intros Hd Hn Hs H. unfold fl_div_e in H.
+  destruct (Z.leb_spec d 0); [lia|]. destruct (Z.eqb_spec n 0); [contradiction|].
+  set (a := Z.abs n) in *. set (s := (Z.log2 d - Z.log2 a + 55)%Z) in *.
+  destruct (Z.leb_spec 0 s); [|lia].
+  rewrite Z.shiftl_mul_pow2 in H by lia.
+  pose proof (Z_div_mod (a * 2 ^ s) d ltac:(lia)) as Hdm.
+  destruct (Z.div_eucl (a * 2 ^ s) d) as [q r]. destruct Hdm as [HA Hr].
+  set (mm := (2 * q + (if r =? 0 then 0 else 1))%Z) in *.
+  assert (Ha : (0 < a)%Z) by (unfold a; lia).
+  assert (Hp : (0 < 2 ^ s)%Z) by (apply Z.pow_pos_nonneg; lia).
+  assert (Hmm : (Z.abs (mm * d - 2 * (a * 2 ^ s)) <= d)%Z).
+  { unfold mm. destruct (Z.eqb_spec r 0); lia. }
+  assert (Hq : (2 ^ 54 * d <= a * 2 ^ s)%Z).
+  { assert (La : (2 ^ Z.log2 a <= a)%Z) by (apply Z.log2_spec; lia).
+    assert (Ld : (d < 2 ^ (Z.log2 d + 1))%Z).
+    { pose proof (Z.log2_spec d ltac:(lia)). replace (Z.log2 d + 1)%Z with (Z.succ (Z.log2 d)) by lia. lia. }
+    assert (L0 : (0 <= Z.log2 a)%Z) by apply Z.log2_nonneg. assert (L1 : (0 <= Z.log2 d)%Z) by apply Z.log2_nonneg.
+    assert (HAge : (2 ^ 54 * 2 ^ (Z.log2 d + 1) <= a * 2 ^ s)%Z).
+    { rewrite <- Z.pow_add_r by lia. replace (54 + (Z.log2 d + 1))%Z with (Z.log2 a + s)%Z by (unfold s; lia).
+      rewrite Z.pow_add_r by lia. apply Z.mul_le_mono_nonneg_r; lia. }
+    nia. }
+  set (y := inject_Z a / inject_Z d * p2 k).
+  set (pre := inject_Z mm * p2 (k - s - 1)).
+  assert (Hdq : 0 < inject_Z d) by (change 0 with (inject_Z 0); rewrite <- Zlt_Qlt; lia).
+  assert (Hy : y == inject_Z (2 * (a * 2 ^ s)) / inject_Z d * p2 (k - s - 1)).
+  { unfold y. rewrite inject_Z_mult, inject_Z_mult, p2_Z by lia.
+    replace k with ((k - s - 1) + (s + 1))%Z at 1 by lia. rewrite p2_plus, p2_succ.
+    change (inject_Z 2) with 2. field. lra. }
+  assert (Hdiff : Qabs (pre - y) <= p2 (k - s - 1)).
+  { rewrite Hy. unfold pre.
+    setoid_replace (inject_Z mm * p2 (k - s - 1) - inject_Z (2 * (a * 2 ^ s)) / inject_Z d * p2 (k - s - 1))
+      with (inject_Z (mm * d - 2 * (a * 2 ^ s)) / inject_Z d * p2 (k - s - 1)).
+    - rewrite Qabs_Qmult, (Qabs_pos (p2 _)) by (apply Qlt_le_weak, p2_pos).
+      assert (Qabs (inject_Z (mm * d - 2 * (a * 2 ^ s)) / inject_Z d) <= 1).
+      { unfold Qdiv. rewrite Qabs_Qmult, Qabs_inject, (Qabs_pos (/ inject_Z d)) by (apply Qlt_le_weak, Qinv_lt_0_compat; auto).
+        apply Qle_shift_div_r; auto. rewrite Qmult_1_l. rewrite <- Zle_Qle. auto. }
+      pose proof (p2_pos (k - s - 1)). nra.
+    - replace (mm * d - 2 * (a * 2 ^ s))%Z with (mm * d + - (2 * (a * 2 ^ s)))%Z by lia.
+      rewrite inject_Z_plus, inject_Z_opp, !inject_Z_mult. field. lra. }
+  assert (Hylow : p2 54 * p2 (k - s) <= y).
+  { unfold y.
+    assert (G1 : p2 54 * inject_Z d <= inject_Z a * p2 s).
+    { rewrite <- !p2_Z by lia. rewrite <- !inject_Z_mult. rewrite <- Zle_Qle. auto. }
+    assert (G2 : p2 54 * p2 (- s) <= inject_Z a / inject_Z d).
+    { apply Qle_shift_div_l; auto.
+      assert (Hs1 : p2 s * p2 (- s) == 1) by (rewrite <- p2_plus; replace (s + - s)%Z with 0%Z by lia; reflexivity).
+      pose proof (p2_pos (- s)) as Pms.
+      assert (G3 : p2 54 * inject_Z d * p2 (- s) <= inject_Z a * p2 s * p2 (- s)) by (apply Qmult_le_compat_r; lra).
+      setoid_replace (inject_Z a * p2 s * p2 (- s)) with (inject_Z a * (p2 s * p2 (- s))) in G3 by ring.
+      rewrite Hs1 in G3. lra. }
+    replace (k - s)%Z with (- s + k)%Z by lia. rewrite p2_plus.
+    pose proof (p2_pos k) as Pk.
+    assert (G4 : p2 54 * p2 (- s) * p2 k <= inject_Z a / inject_Z d * p2 k) by (apply Qmult_le_compat_r; lra). lra. }
+  assert (Hy0 : 0 < y) by (pose proof (p2_pos 54); pose proof (p2_pos (k - s)); nra).
+  assert (Hd55 : Qabs (pre - y) <= p2 (-55) * y).
+  { eapply Qle_trans; [apply Hdiff|]. replace (k - s - 1)%Z with (-55 + (54 + (k - s)))%Z by lia. rewrite !p2_plus.
+    pose proof (p2_pos (-55)).
+    assert (p2 (-55) * (p2 54 * p2 (k - s)) <= p2 (-55) * y) by (rewrite !(Qmult_comm (p2 (-55))); apply Qmult_le_compat_r; lra). lra. }
+  assert (Hpre : Qabs pre <= (1 + p2 (-55)) * y).
+  { setoid_replace pre with ((pre - y) + y) by ring. eapply Qle_trans; [apply Qabs_triangle|].
+    rewrite (Qabs_pos y) by lra. lra. }
+  (* the rounding step *)
+  set (sg := if (n <? 0)%Z then (-1)%Z else 1%Z).
+  assert (Hsg : (if (n <? 0)%Z then (- mm)%Z else mm) = (sg * mm)%Z) by (unfold sg; destruct (n <? 0)%Z; lia).
+  rewrite Hsg in H. pose proof (round_dy_rel _ _ _ _ H) as Hr1.
+  assert (Hn' : inject_Z n == inject_Z sg * inject_Z a).
+  { rewrite <- inject_Z_mult. unfold sg, a. destruct (Z.ltb_spec n 0); f_equiv; lia. }
+  assert (Hsabs : Qabs (inject_Z sg) == 1) by (unfold sg; destruct (n <? 0)%Z; reflexivity).
+  assert (Htarget : inject_Z n / inject_Z d * p2 k == inject_Z sg * y).
+  { unfold y. rewrite Hn'. field. lra. }
+  assert (Hpre2 : inject_Z (sg * mm) * p2 (k - s - 1) == inject_Z sg * pre) by (unfold pre; rewrite inject_Z_mult; ring).
+  rewrite Htarget. rewrite Hpre2 in Hr1.
+  rewrite Qabs_Qmult, Hsabs, Qmult_1_l, (Qabs_pos y) by lra.
+  rewrite Qabs_Qmult, Hsabs, Qmult_1_l in Hr1.
+  eapply Qle_trans; [apply (Qabs_triangle3 _ (inject_Z sg * pre))|].
+  assert (Hb : Qabs (inject_Z sg * pre - inject_Z sg * y) <= p2 (-55) * y).
+  { setoid_replace (inject_Z sg * pre - inject_Z sg * y) with (inject_Z sg * (pre - y)) by ring.
+    rewrite Qabs_Qmult, Hsabs, Qmult_1_l. auto. }
+  pose proof p2_consts. pose proof (p2_pos (-53)). pose proof (p2_pos (-55)). nra.
+Qed.
+
+(** exact comparison of two finite floats is comparison of their values *)
+Lemma shiftl_Q m e E : (E <= e)%Z -> inject_Z (Z.shiftl m (e - E)) * p2 E == inject_Z m * p2 e.
+Proof.
+  intros H. rewrite Z.shiftl_mul_pow2 by lia. rewrite inject_Z_mult, p2_Z by lia.
+  replace e with (E + (e - E))%Z at 2 by lia. rewrite p2_plus. ring.
+Qed.
+Lemma f_cmp_Q m1 e1 m2 e2 :
+  f_cmp (Fin m1 e1) (Fin m2 e2) = Some (Qv (Fin m1 e1) ?= Qv (Fin m2 e2)).
+Proof.
+  cbn [f_cmp Qv]. f_equal. set (E := Z.min e1 e2).
+  rewrite <- (shiftl_Q m1 e1 E), <- (shiftl_Q m2 e2 E) by (unfold E; lia).
+  set (A := Z.shiftl m1 (e1 - E)). set (B := Z.shiftl m2 (e2 - E)).
+  pose proof (p2_pos E) as PE.
+  destruct (Z.compare_spec A B) as [->|Hlt|Hgt]; symmetry.
+  - apply Qeq_alt. reflexivity.
+  - apply Qlt_alt. rewrite Zlt_Qlt in Hlt. apply Qmult_lt_compat_r; auto.
+  - apply Qgt_alt. rewrite Zlt_Qlt in Hgt. apply Qmult_lt_compat_r; auto.
+Qed.
+
+(** f_round is within 1/2 of the value *)
+Lemma Qv_num_den x : f_is_finite x = true -> Qv x == inject_Z (f_num x) / inject_Z (f_den x).
+Proof.
+  destruct x as [m e| | |]; try discriminate. intros _. cbn [Qv f_num f_den].
+  destruct (Z.le_ge_cases 0 e).
+  - replace (Z.max e 0) with e by lia. replace (Z.max (- e) 0) with 0%Z by lia.
+    rewrite inject_Z_mult, p2_Z by lia. change (inject_Z (2 ^ 0)) with 1. field.
+  - replace (Z.max e 0) with 0%Z by lia. replace (Z.max (- e) 0) with (- e)%Z by lia.
+    change (2 ^ 0)%Z with 1%Z. rewrite Z.mul_1_r. rewrite p2_Z by lia.
+    assert (Hs1 : p2 e * p2 (- e) == 1) by (rewrite <- p2_plus; replace (e + - e)%Z with 0%Z by lia; reflexivity).
+    pose proof (p2_pos (- e)). field_simplify_eq; [|lra]. rewrite <- Qmult_assoc, Hs1. ring.
+Qed.
+Lemma f_round_Q x k : f_round x = Ok k -> Qabs (inject_Z k - Qv x) <= 1 # 2.
+Proof.
+  intros H. pose proof (f_round_half x k H) as Hh. pose proof (f_round_finite x k H) as Hf.
+  rewrite (Qv_num_den x Hf). pose proof (f_den_pos x) as Hd.
+  assert (Hdq : 0 < inject_Z (f_den x)) by (change 0 with (inject_Z 0); rewrite <- Zlt_Qlt; lia).
+  setoid_replace (inject_Z k - inject_Z (f_num x) / inject_Z (f_den x))
+    with (inject_Z (2 * k * f_den x - 2 * f_num x) / (2 * inject_Z (f_den x))).
+  - unfold Qdiv. rewrite Qabs_Qmult, Qabs_inject.
+    rewrite (Qabs_pos (/ (2 * inject_Z (f_den x)))) by (apply Qlt_le_weak, Qinv_lt_0_compat; lra).
+    apply Qle_shift_div_r; [lra|].
+    setoid_replace ((1 # 2) * (2 * inject_Z (f_den x))) with (inject_Z (f_den x)) by ring.
+    rewrite <- Zle_Qle. replace (2 * k * f_den x - 2 * f_num x)%Z with (- (2 * f_num x - 2 * k * f_den x))%Z by lia.
+    rewrite Z.abs_opp. auto.
+  - replace (2 * k * f_den x - 2 * f_num x)%Z with (2 * k * f_den x + - (2 * f_num x))%Z by lia.
+    rewrite inject_Z_plus, inject_Z_opp, !inject_Z_mult. change (inject_Z 2) with 2. field. lra.
+Qed.
+
+(** finiteness of a quotient of moderate size *)
+Lemma fl_div_finite n d : (0 < d)%Z -> n <> 0%Z -> (0 <= Z.log2 d - Z.log2 (Z.abs n) + 55)%Z ->
+  exists m' e', fl_div_e n d 0 = Fin m' e'.
+Proof.
+  intros Hd Hn Hs. unfold fl_div_e.
+  destruct (Z.leb_spec d 0); [lia|]. destruct (Z.eqb_spec n 0); [contradiction|].
+  set (a := Z.abs n) in *. set (s := (Z.log2 d - Z.log2 a + 55)%Z) in *.
+  destruct (Z.leb_spec 0 s); [|lia].
+  rewrite Z.shiftl_mul_pow2 by lia.
+  pose proof (Z_div_mod (a * 2 ^ s) d ltac:(lia)) as Hdm.
+  destruct (Z.div_eucl (a * 2 ^ s) d) as [q r]. destruct Hdm as [HA Hr].
+  set (mm := (2 * q + (if r =? 0 then 0 else 1))%Z).
+  assert (Ha : (0 < a)%Z) by (unfold a; lia).
+  assert (Hq : (0 <= q < 2 ^ 57)%Z).
+  { assert (La : (a < 2 ^ (Z.log2 a + 1))%Z).
+    { pose proof (Z.log2_spec a ltac:(lia)). replace (Z.log2 a + 1)%Z with (Z.succ (Z.log2 a)) by lia. lia. }
+    assert (Ld : (2 ^ Z.log2 d <= d)%Z) by (apply Z.log2_spec; lia).
+    assert (L0 : (0 <= Z.log2 a)%Z) by apply Z.log2_nonneg. assert (L1 : (0 <= Z.log2 d)%Z) by apply Z.log2_nonneg.
+    assert (Hp : (0 < 2 ^ s)%Z) by (apply Z.pow_pos_nonneg; lia).
+    assert (HAlt : (a * 2 ^ s < 2 ^ 56 * 2 ^ Z.log2 d)%Z).
+    { rewrite <- Z.pow_add_r by lia. replace (56 + Z.log2 d)%Z with ((Z.log2 a + 1) + s)%Z by (unfold s; lia).
+      rewrite Z.pow_add_r by lia. apply Z.mul_lt_mono_pos_r; lia. }
+    split; [nia|]. assert (q < 2 ^ 56)%Z by nia. lia. }
+  assert (Hmm : (Z.abs (if (n <? 0)%Z then (- mm)%Z else mm) < 2 ^ 58)%Z).
+  { unfold mm. destruct (n <? 0)%Z, (r =? 0)%Z; lia. }
+  apply round_dy_finite.
+  assert (Z.log2 (Z.abs (if (n <? 0)%Z then (- mm)%Z else mm)) < 58)%Z.
+  { destruct (Z.eq_dec (Z.abs (if (n <? 0)%Z then (- mm)%Z else mm)) 0) as [->|]; [simpl; lia|]. apply Z.log2_lt_pow2; lia. }
+  lia.
+Qed.
+
